@@ -26,6 +26,8 @@ def seeded():
         if not os.path.exists(meta):
             continue
         mj = json.load(open(meta))
+        if mj.get("obsolete"):
+            continue
         out.append(dict(id=os.path.basename(d), prop=mj.get("checks") or mj["property"],
                         patch=os.path.join(d, "patch.diff"),
                         expect=mj.get("expect", ""), tier=mj.get("tier", "quick")))
